@@ -58,6 +58,9 @@ def output_text_report(tex, plain, charmap, matches, file, out):
         txt = json_get(cont, 'text', str)
         beg = json_get(cont, 'offset', int)
         length = json_get(cont, 'length', int)
+        # bad values: the marker line is never longer than the context
+        beg = min(beg, len(txt))
+        length = min(length, len(txt) - beg)
         out.write(txt.replace('\t', ' ') + '\n')
         out.write(' ' * beg + '^' * length + '\n')
 
